@@ -75,6 +75,10 @@ type L1 struct {
 	// it executes there (other transactions, block boundaries, queries) is discarded and must leave no trace.
 	Shadow   func(br *L1)
 	isShadow bool
+	// RestartEvery > 0: the process "restarts" (Restart) before every n-th transaction.
+	RestartEvery int
+	delivered    int
+	opts         L1Opts
 }
 
 // PermKeeper is an in-store stand-in for initia's ibcperm keeper.
@@ -162,7 +166,12 @@ func NewL1(opts L1Opts) *L1 {
 		start = GenesisTime
 	}
 	ctx := sdk.NewContext(ms, tmproto.Header{Height: 1, Time: start, ChainID: "l1-chain"}, false, log.NewNopLogger())
+	return buildL1(ctx, keys, opts, true)
+}
 
+// buildL1 constructs every keeper, router and querier over the given stores. With init=false nothing is written:
+// this is what a node does when its process starts on an existing database.
+func buildL1(ctx sdk.Context, keys map[string]*storetypes.KVStoreKey, opts L1Opts, init bool) *L1 {
 	enc := MakeEncodingConfig(L1Basics)
 	gov := authtypes.NewModuleAddress(govtypes.ModuleName).String()
 
@@ -179,16 +188,20 @@ func NewL1(opts L1Opts) *L1 {
 		authcodec.NewBech32Codec(sdk.GetConfig().GetBech32AccountAddrPrefix()),
 		sdk.GetConfig().GetBech32AccountAddrPrefix(), gov,
 	)
-	if err := ak.Params.Set(ctx, authtypes.DefaultParams()); err != nil {
-		panic(err)
+	if init {
+		if err := ak.Params.Set(ctx, authtypes.DefaultParams()); err != nil {
+			panic(err)
+		}
 	}
 	blocked := map[string]bool{}
 	for acc := range maccPerms {
 		blocked[authtypes.NewModuleAddress(acc).String()] = true
 	}
 	bk := bankkeeper.NewBaseKeeper(enc.Codec, runtime.NewKVStoreService(keys[banktypes.StoreKey]), ak, blocked, gov, ctx.Logger())
-	if err := bk.SetParams(ctx, banktypes.DefaultParams()); err != nil {
-		panic(err)
+	if init {
+		if err := bk.SetParams(ctx, banktypes.DefaultParams()); err != nil {
+			panic(err)
+		}
 	}
 
 	router := baseapp.NewMsgServiceRouter()
@@ -209,12 +222,22 @@ func NewL1(opts L1Opts) *L1 {
 		obk = opts.WrapBank(bk)
 	}
 	k := ophostkeeper.NewKeeper(enc.Codec, runtime.NewKVStoreService(keys[ophosttypes.StoreKey]), ak, obk, communityPool{bk}, hook, gov)
-	if err := k.SetParams(ctx, ophosttypes.DefaultParams()); err != nil {
-		panic(err)
+	if init {
+		if err := k.SetParams(ctx, ophosttypes.DefaultParams()); err != nil {
+			panic(err)
+		}
 	}
 	ophosttypes.RegisterMsgServer(router, ophostkeeper.NewMsgServerImpl(*k))
 
-	return &L1{Ctx: ctx, Keys: keys, Enc: enc, AK: ak, BK: bk, K: k, Q: ophostkeeper.NewQuerier(*k), Router: router, Gov: gov, Perm: perm, Chan: ch}
+	return &L1{Ctx: ctx, Keys: keys, Enc: enc, AK: ak, BK: bk, K: k, Q: ophostkeeper.NewQuerier(*k), Router: router, Gov: gov, Perm: perm, Chan: ch, opts: opts}
+}
+
+// Restart replaces every keeper, router, hook and querier by freshly constructed ones over the same stores: what a
+// node's process restart does. Only what is in the stores survives.
+func (c *L1) Restart() {
+	n := buildL1(c.Ctx, c.Keys, c.opts, false)
+	c.Enc, c.AK, c.BK, c.K, c.Q, c.Router, c.Perm, c.Chan = n.Enc, n.AK, n.BK, n.K, n.Q, n.Router, n.Perm, n.Chan
+	ShadowStats.Restarts.Add(1)
 }
 
 // Branch returns a copy-on-write fork of the chain; writes to it never reach the parent.
@@ -285,6 +308,11 @@ func (c *L1) runShadow() {
 }
 
 func (c *L1) Deliver(msgs ...sdk.Msg) Result {
+	if c.RestartEvery > 0 && !c.isShadow {
+		if c.delivered++; c.delivered%c.RestartEvery == 0 {
+			c.Restart()
+		}
+	}
 	c.runShadow()
 	if c.Speculate {
 		ShadowStats.Speculated.Add(1)
